@@ -122,7 +122,7 @@ pub fn ipfix_sweep() -> Vec<FieldSpec> {
             v.push(fs(ty, 65535));
         }
     }
-    for (ty, pen) in [(1u16, 9u32), (77, 0xdead_beef), (32767, 1), (0, u32::MAX)] {
+    for (ty, pen) in [(1u16, 9u32), (77, 0xdead_beef), (32767, 1), (0, u32::MAX), (5, 0)] {
         for len in [1u16, 4, 9, 65535] {
             v.push(fse(ty, len, pen));
         }
